@@ -600,7 +600,9 @@ func (l *IPFSLog) Join(otherLog iface.IPFSLog, size int) (iface.IPFSLog, error) 
 
 	if size > -1 {
 		tmp := l.values().Slice()
-		tmp = tmp[len(tmp)-size:]
+		if size < len(tmp) {
+			tmp = tmp[len(tmp)-size:]
+		}
 
 		entries := entry.NewOrderedMapFromEntries(tmp)
 		heads := entry.NewOrderedMapFromEntries(entry.FindHeads(entry.NewOrderedMapFromEntries(tmp)))
